@@ -1465,6 +1465,11 @@ fn run(a: &Args) {
                                                 "quiescent, not paused, worker(s) {:?} are alive, in the rotation and below the limit {} but {} connection(s) are still waiting to be dispatched",
                                                 spare, w.limit, opened - sent);
                                             for t in tags { w.t3.push((t.to_string(), msg.clone())); }
+                                            // fault-free: the waiting connection was held back although a worker is NOT at
+                                            // its limit — round robin may pass over saturated workers only (C04)
+                                            if !w.any_die {
+                                                w.t3.push(("C04".into(), msg.clone()));
+                                            }
                                         }
                                     }
                                     c.prev_op_was_quiet_poll = quiet;
